@@ -617,6 +617,8 @@ def write_evidence(ctx, audit, level='proof', extra_cov=None, assumptions=None, 
               assumptions=assumptions or [], wall_s=round(ctx.elapsed(), 2), violations=violations)
     # VERIF_EVIDENCE_DIR: scratch runs of the tools (seeded changes applied in a worktree) must not overwrite the evidence of the real tree
     edir = os.environ.get('VERIF_EVIDENCE_DIR') or os.path.join(VERIF, 'evidence')
+    if not re.fullmatch(r'C\d\d', ctx.prop_id):
+        edir = os.path.join(os.path.dirname(edir.rstrip('/')), 'evidence_extras') if not os.environ.get('VERIF_EVIDENCE_DIR') else os.path.join(edir, 'extras')      # suites beyond the 20 listed properties (X01, …): never mixed with the properties' evidence
     os.makedirs(edir, exist_ok=True)
     tmp = os.path.join(edir, ctx.prop_id + '.json.%d.tmp' % os.getpid())
     with open(tmp, 'w') as f:
